@@ -117,9 +117,26 @@ CLAIMED.update({
         ref='DESIGN.md section 5 C18'),
 })
 
+CLAIMED.update({
+    'C19': dict(
+        text='Deductive proof of the language-server state machine as a data structure against an abstract view: every stored document carries the analysis of the text stored with it (invariant of every handler); '
+             'updateDocument has a whole-view postcondition (the named document gets the new text and its analysis, every other document is unchanged); Handle: didOpen stores the text it carries, didChange stores the LAST content change, '
+             'every other request changes no document; hover / definition / symbols modify nothing, answer nil for an unknown document, and definition answers with the URI that was asked.',
+        note='"the analysis of a text" is the relation analysed(result, text) defined by the (assumed, definitional) postcondition of analysis.CheckSource; determinism of the analysis is not proved. '
+             'The content of hover texts and that hover/definition pick the variable under the cursor (navigation correctness) are NOT proved: only the node-or-nil and right-document parts are. JSON decoding of the request is an arbitrary value of the parameter type. '
+             'Interleavings do not arise: the server handles one request at a time.',
+        ref='DESIGN.md section 5 C19'),
+    'C20': dict(
+        text='Deductive proof of the exit behaviour of the two commands: every os.Exit in internal/cmd carries a non-zero status; `check` returns normally only when the number of error-severity diagnostics it obtained from GetErrorsCount on the analysed file is zero; '
+             '`run` returns normally only when parsing produced no error and RunProgram returned no error (every failure path ends in os.Exit).',
+        note='Not proved: what is printed (diagnostic lines, JSON rendering - encoding/json and fmt are outside the model), the equivalence of the three input channels (the readers are trusted contracts that only frame which option fields they set), '
+             'and that GetErrorsCount counts error severities (its result is a named, uninterpreted count).',
+        ref='DESIGN.md section 5 C20'),
+})
+
 NOT_APPLICABLE = {}
 
-PENDING = [ 'C16', 'C17', 'C18', 'C19', 'C20']
+PENDING = [ 'C16', 'C17']
 
 
 def main():
